@@ -33,6 +33,7 @@ type ConcScenario struct {
 	// no oracle that models time is applied to such a run)
 	TickPerRead int64  `json:"tick_per_read,omitempty"`
 	Tier        string `json:"tier,omitempty"`
+	Other       bool   `json:"other,omitempty"` // a second container of the same kind exists; user functions with Op.Other write to it
 	// TwoContainers (C14 only): odd tasks work on a second container of the same kind
 	TwoContainers bool `json:"two_containers,omitempty"`
 
@@ -150,7 +151,7 @@ func setHash(mode string, n int, seed uint64) {
 // want: which oracles to evaluate.
 type Want struct {
 	Lin, Ledger, Traversal, Size, Racers, ReadBound bool
-	Defaults bool // C09: entries stored with DefaultExpiration while the default is being changed
+	Defaults                                        bool // C09: entries stored with DefaultExpiration while the default is being changed
 }
 
 // RunConc executes the scenario and evaluates the requested oracles.
@@ -202,6 +203,14 @@ func RunConc(sc *ConcScenario, want Want) *ConcResult {
 		w.defAtCtor, _ = sc.Ctor.Effective()
 	} else {
 		w.m = NewMapKind(sc.Kind, sc.Hasher, sc.Presize, sc.UsePre)
+	}
+	if sc.Other {
+		if cacheFam {
+			w.otherC = NewCacheKind(sc.Ctor, nil)
+		} else {
+			w.otherM = NewMapKind(sc.Kind, sc.Hasher, sc.Presize, sc.UsePre)
+		}
+		res.probe("two_container_runs", 1)
 	}
 	exec := func(op Op) *Rec {
 		if cacheFam {
